@@ -15,6 +15,7 @@
    The flags `clones` and `resets` are instantiated with generated facts (Gen/FactsResponders.v) in Props/C03.v. *)
 From Coq Require Import String Ascii.
 From Coq Require Import List NArith Bool.
+From Gluon Require Import Model.SqlBindFacts.
 Import ListNotations.
 Open Scope list_scope.
 Open Scope N_scope.
@@ -41,6 +42,13 @@ Definition responder_facts_ok (uses : list (string * string * string)) (inplace 
 Definition setsnap_ok (calls : list (string * string * bool)) : bool :=
   forallb (fun c => match c with (f, arg, guarded) => if String.eqb arg "nil" then String.eqb f "close" else guarded end) calls
   && sn_str_in "Select" (map (fun c => fst (fst c)) calls) && sn_str_in "Examine" (map (fun c => fst (fst c)) calls).
+
+(* the three flag updates (+FLAGS, -FLAGS, FLAGS) tell the responder "this came from a different mailbox" by comparing the
+   mailbox of the session's snapshot with the mailbox of the update (not, e.g., the sessions): every NewFetch call in an
+   Apply method passes `<state>.snap.mboxID != u.mboxID`, and all three operations have one *)
+Definition newfetch_ok (calls : list (string * string * string)) : bool :=
+  forallb (fun c => str_suffix ".snap.mboxID != u.mboxID" (snd (fst c))) calls
+  && forallb (fun o => existsb (fun c => String.eqb (snd c) o) calls) ["FetchFlagOpAdd"; "FetchFlagOpRem"; "FetchFlagOpSet"]%string.
 
 (* ---- Part 1: one STORE FLAGS update, several sessions ---- *)
 Section SetUpdate.
